@@ -169,7 +169,14 @@ def run_walk(w, nodes, succ, init, rng, max_steps):
             fresh = [v for v in vs if (u, v) not in run_walk.visited]
             v = rng.choice(fresh if fresh and rng.random() < 0.8 else vs)
             ev = nodes[v]['ev']
-            out, ret = execute(w, st, ev)
+            try:
+                out, ret = execute(w, st, ev)
+            except MachineryError:
+                raise
+            except Exception as e:
+                import traceback
+                trace.append({'op': ev['op'], 'x': ev['x'], 'out': 'crash:' + type(e).__name__, 'ret': []})
+                return trace, 'unexpected %s inside pony during %s: %s\n%s' % (type(e).__name__, ev['op'], e, traceback.format_exc()[-1200:]), checked
             trace.append({'op': ev['op'], 'x': ev['x'], 'out': out, 'ret': sorted(ret)})
             run_walk.visited.add((u, v))
             if out != ev['out'] or (out == 'ok' and set(ret) != set(ev['ret'])):
